@@ -43,6 +43,7 @@ SPEC = {
         H("c10_float_deserialize_n3", mod=NUM, functions=F_F, heavy=True, domain="every string <= 3 bytes over the alphabet through serde StrDeserializer", bound="len <= 3"),
         H("c10_i32_roundtrip_edges", mod=NUM, functions=F_32, heavy=True,
           domain="every i32 in [MIN, MIN+4096] u [-4096, 4096] u [MAX-4096, MAX]", bound="unwind 13 (<= 11 characters)"),
+        H("c10_i32_extremes", mod=NUM, functions=F_32, heavy=True, domain="i32::MIN, i32::MIN+1, -1, 0, 1, i32::MAX", bound="six values"),
         H("c10_i32_roundtrip_all", mod=NUM, functions=F_32, tiers=("thorough",), heavy=True, optional=True, timeout=1500,
           domain="every i32", bound="unwind 13 (<= 11 characters)"),
         H("c10_num_twin_must_fail", mod=NUM, functions=F_I, expect="twin", heavy=True, domain="vacuity twin", bound="-"),
